@@ -32,7 +32,7 @@ func c20Alphabet() [][2]protocol.EntryExt {
 	}
 	return [][2]protocol.EntryExt{
 		{mk(t1.UTC(), rec()), mk(t1.In(east), rec())},
-		{mk(t2.UTC(), rec()), mk(t2.In(west), rec())},                                                               // other instant, same record
+		{mk(t2.UTC(), rec()), mk(t2.In(west), rec())}, // other instant, same record
 		{mk(t1.UTC(), map[string]interface{}{"k": "v", "n": int(7)}), mk(t1.In(west), map[string]interface{}{"n": int(7), "k": "v"})}, // same instant, other record
 		{mk(t3.UTC(), nil), mk(t3.In(east), nil)},
 		{mk(t3.UTC(), map[string]interface{}{}), mk(t3.In(east), map[string]interface{}{})},
